@@ -1017,22 +1017,30 @@ Proof.
   assert (existsb p l = true) by (apply existsb_exists; now exists x). congruence.
 Qed.
 
-(* normalising the PEP 604 / builtin-generic runtime form gives the typing.Union form, at every depth, as long as no
-   Tuple[X, ...] occurs (the Ellipsis argument is refused) *)
-Theorem norm_rt604 c :
-  wf_cty c = true -> has_variadic c = false -> norm_gen (rt Sp604 c) = Ok (rt SpBuiltin c).
+(* the source has the arm that lets the `...` of tuple[X, ...] through (regenerated fact; the repaired shape) *)
+Lemma ellipsis_handled : NORM_HANDLES_ELLIPSIS_GEN = true.
+Proof. reflexivity. Qed.
+
+Lemma norm_dots : norm_gen REllipsis = Ok REllipsis.
+Proof. reflexivity. Qed.
+
+(* normalising the PEP 604 / builtin-generic runtime form gives the typing.Union form, at every depth, for every
+   type of the CLI grammar (Tuple[X, ...] included) *)
+Theorem norm_rt604 c : wf_cty c = true -> norm_gen (rt Sp604 c) = Ok (rt SpBuiltin c).
 Proof.
-  induction c as [n| | |a IH|l IH|a IH|k v IHk IHv|l IH|] using cty_ind2; intros Hw Hv; try discriminate.
+  induction c as [n| | |a IH|l IH|a IH|k v IHk IHv|l IH|] using cty_ind2; intros Hw; try discriminate.
   - cbn [rt]. cbn [wf_cty] in Hw.
     apply norm_cls; now apply (wf_name_not_reserved n).
-  - cbn [wf_cty has_variadic] in *. cbn [rt]. rewrite norm_list, IH by assumption. reflexivity.
-  - cbn [wf_cty has_variadic] in *. apply andb_true_iff in Hw as [_ Hw]. rewrite forallb_forall in Hw.
+  - cbn [wf_cty] in *. cbn [rt]. rewrite norm_list, IH by assumption. reflexivity.
+  - cbn [wf_cty] in *. apply andb_true_iff in Hw as [_ Hw]. rewrite forallb_forall in Hw.
     rewrite Forall_forall in IH. cbn [rt]. rewrite norm_tuple.
     rewrite (mapM_map_ok norm_gen (rt Sp604) (rt SpBuiltin)); [reflexivity|].
-    intros x Hx. apply IH; auto. now apply (existsb_false_In has_variadic l).
-  - cbn [wf_cty has_variadic] in *. apply andb_true_iff in Hw as [Hk Hvv]. apply orb_false_iff in Hv as [Hv1 Hv2].
+    intros x Hx. apply IH; auto.
+  - cbn [wf_cty] in *. cbn [rt]. rewrite norm_tuple. cbn [mapM]. rewrite IH by assumption. cbn [bind].
+    rewrite norm_dots. reflexivity.
+  - cbn [wf_cty] in *. apply andb_true_iff in Hw as [Hk Hvv].
     cbn [rt]. rewrite norm_dict, IHk, IHv by assumption. reflexivity.
-  - destruct (wf_union_parts l Hw) as [Hlen [_ [Hnd Hm]]]. cbn [has_variadic] in Hv.
+  - destruct (wf_union_parts l Hw) as [Hlen [_ [Hnd Hm]]].
     cbn [rt]. rewrite norm_utype. fold (mrt Sp604). fold (mrt SpBuiltin).
     rewrite (mapM_map_ok norm_gen (mrt Sp604) (mrt SpBuiltin)).
     + cbn [bind]. now apply mk_tunion_members.
@@ -1040,7 +1048,7 @@ Proof.
       apply orb_true_iff in Hm as [Hn|Hx2].
       * destruct x; try discriminate. reflexivity.
       * apply andb_true_iff in Hx2 as [_ Hxw]. rewrite !rt_none_iff by exact Hxw.
-        rewrite Forall_forall in IH. apply IH; auto. now apply (existsb_false_In has_variadic l).
+        rewrite Forall_forall in IH. apply IH; auto.
 Qed.
 
 (* ---------- how a grammar union is written in the typing / builtin spellings ---------- *)
@@ -1469,12 +1477,6 @@ Proof.
 Qed.
 
 (* ---------- the resolution pipeline: every rendering of a grammar type resolves to the same canonical type ---------- *)
-Definition is_sp604 (sp : spelling) : bool := match sp with Sp604 => true | _ => false end.
-
-(* the excluded inputs: a string annotation written with bars whose top level is a union containing Tuple[X, ...] *)
-Definition resolve_safe (sp : spelling) (postponed initvar : bool) (c : cty) : bool :=
-  negb postponed || negb (is_sp604 sp) || initvar || negb (is_cunion c) || negb (has_variadic c).
-
 Lemma forward_refs_ok : env_ok FORWARD_REFS_GEN = true.
 Proof. reflexivity. Qed.
 
@@ -1482,18 +1484,16 @@ Lemma rt_utype sp c l : rt sp c = RUType l -> sp = Sp604 /\ is_cunion c = true.
 Proof. destruct c; try discriminate; destruct sp; try discriminate. intros _. split; reflexivity. Qed.
 
 Theorem resolve_render sp postponed initvar c :
-  wf_cty c = true -> resolve_safe sp postponed initvar c = true ->
-  exists r, resolve_gen postponed initvar (render sp c) = Ok r /\ canon r = c.
+  wf_cty c = true -> exists r, resolve_gen postponed initvar (render sp c) = Ok r /\ canon r = c.
 Proof.
-  intros Hw Hs. unfold resolve_gen, resolve. destruct postponed.
+  intros Hw. unfold resolve_gen, resolve. destruct postponed.
   - rewrite (eval_render FORWARD_REFS_GEN sp c forward_refs_ok Hw). cbn [bind]. cbv zeta.
     rewrite (rt_none_iff sp c Hw).
     destruct (rt sp c) as [n| | |al o args|args|args] eqn:E;
       try (eexists; split; [reflexivity|rewrite <- E; now apply canon_rt]).
     destruct (rt_utype sp c args E) as [-> Hu].
     destruct initvar; [eexists; split; [reflexivity|rewrite <- E; now apply canon_rt]|].
-    unfold resolve_safe in Hs. rewrite Hu in Hs. cbn in Hs. apply negb_true_iff in Hs.
-    rewrite <- E. fold norm_gen. rewrite (norm_rt604 c Hw Hs). eexists. split; [reflexivity|now apply canon_rt].
+    rewrite <- E. fold norm_gen. rewrite (norm_rt604 c Hw). eexists. split; [reflexivity|now apply canon_rt].
   - rewrite (eval_render [] sp c eq_refl Hw). eexists. split; [reflexivity|now apply canon_rt].
 Qed.
 
@@ -1813,15 +1813,14 @@ Proof.
   intros [n [ty k i c]]. destruct k; reflexivity.
 Qed.
 
-Definition decl_safe (sp : spelling) (postponed : bool) (kv : string * fdecl) : bool :=
-  wf_cty (f_ty (snd kv)) && resolve_safe sp postponed (fkind_eqb (f_kind (snd kv)) KInitVar) (f_ty (snd kv)).
+Definition decl_wf (kv : string * fdecl) : bool := wf_cty (f_ty (snd kv)).
 
 Lemma field_types_ok sp postponed l :
-  forallb (decl_safe sp postponed) l = true -> field_types_gen sp postponed l = Ok (spec_cli_fields l).
+  forallb decl_wf l = true -> field_types_gen sp postponed l = Ok (spec_cli_fields l).
 Proof.
   intros H. unfold field_types_gen, field_types. fold resolve_gen. fold wrapper_fields_gen.
   rewrite <- wrapper_fields_spec.
-  assert (Hsub : forall kv, In kv (wrapper_fields_gen l) -> decl_safe sp postponed kv = true).
+  assert (Hsub : forall kv, In kv (wrapper_fields_gen l) -> decl_wf kv = true).
   { intros kv Hin. unfold wrapper_fields_gen, wrapper_fields in Hin. apply filter_In in Hin as [Hin _].
     rewrite forallb_forall in H. now apply H. }
   induction (wrapper_fields_gen l) as [|kv w IH]; [reflexivity|].
@@ -1833,13 +1832,13 @@ Proof.
                      (fun y => bind (go r) (fun ys => Ok (y :: ys)))
     end) w) with (mapM (fun kv0 => bind (resolve_gen postponed (fkind_eqb (f_kind (snd kv0)) KInitVar) (render sp (f_ty (snd kv0))))
                                         (fun o => Ok (fst kv0, canon o))) w).
-  pose proof (Hsub kv (or_introl eq_refl)) as Hk. unfold decl_safe in Hk. apply andb_true_iff in Hk as [Hw Hs].
-  destruct (resolve_render sp postponed _ _ Hw Hs) as [r [Hr Hc]]. rewrite Hr. cbn [bind]. rewrite Hc.
+  pose proof (Hsub kv (or_introl eq_refl)) as Hw. unfold decl_wf in Hw.
+  destruct (resolve_render sp postponed (fkind_eqb (f_kind (snd kv)) KInitVar) _ Hw) as [r [Hr Hc]]. rewrite Hr. cbn [bind]. rewrite Hc.
   rewrite IH by (intros x Hx; apply Hsub; now right). reflexivity.
 Qed.
 
 Theorem chain_types_ok sp postponed chain :
-  forallb (decl_safe sp postponed) (chain_fields chain) = true ->
+  forallb decl_wf (chain_fields chain) = true ->
   field_types_gen sp postponed (chain_fields chain) = Ok (spec_cli_fields (spec_flat chain)).
 Proof. intros H. rewrite (field_types_ok sp postponed _ H). now rewrite flat_meets_spec. Qed.
 
